@@ -9,6 +9,7 @@ pub mod explore;
 pub mod cli;
 pub mod codec;
 pub mod bcverify;
+pub mod sinks;
 pub mod universes;
 pub mod props;
 
